@@ -1,11 +1,63 @@
 /-
 C08, part `aff`: optimality of the affine aligners (property theorems only).
+
+The property: "the total score of the alignment returned by the Needleman-Wunsch aligners
+equals the maximum over all global alignments … under the … affine gap model".
+
+Full statement for `NWAffine` (sequences non-empty, gap scores and gap-open ≤ 0):
+
+    ∃ ps, nwAlign S open r q = .ok ps ∧
+      (∀ a, IsGlobal a r q → scoreAff S open a ≤ total ps) ∧
+      (∃ a, IsGlobal a r q ∧ scoreAff S open a = total ps)
+
+It is false of the code (`nwAffine_not_opt`, finding K1): the three-layer recurrence has no
+transition between the two gap layers.  What holds is the same statement over the alignments
+with no gap directly next to a gap in the other sequence (`nwAffine_opt_partial`), which is the
+full statement whenever a letter pair never scores less than its two letters against gaps
+(`noAdj_suffices`, `nwAffine_opt_of_side_condition`).
 -/
-import Biogo.Model.AlignAff
-import Biogo.Spec.AffineOpt
+import Biogo.Proofs.NWAffine
+import Biogo.Proofs.NoAdjSuffices
 
 namespace Biogo.Properties.C08_aff
-open Biogo.Spec.Alignment Biogo.AlignAff
+open Biogo.Spec.Alignment Biogo.AlignAff Biogo.Spec.AffineOpt
+open Biogo.Proofs.AffineOpt Biogo.Proofs.NWAffine Biogo.Proofs.NoAdjSuffices
+
+/-- The yardstick of the check is what it claims to be: `globalOpt true` is the maximum of
+    the affine score over all global alignments (`none` never arises for an existing
+    alignment), `globalOpt false` the maximum over those without adjacent opposite gaps. -/
+theorem globalOpt_optimal (cross : Bool) (S : Matrix) (gapOpen : Int) (r q : List Nat) :
+    (∀ a, IsGlobal a r q → (cross = true ∨ NoAdj a) →
+        ∃ x, globalOpt cross S gapOpen r q = some x ∧ scoreAff S gapOpen a ≤ x) ∧
+    (∀ x, globalOpt cross S gapOpen r q = some x →
+        ∃ a, IsGlobal a r q ∧ (cross = true ∨ NoAdj a) ∧ scoreAff S gapOpen a = x) := by
+  have h := globalOpt_isOpt cross S gapOpen r q
+  exact ⟨fun a hg hc => h.1 a ⟨hg, hc⟩, fun x hx => let ⟨a, ha, e⟩ := h.2 x hx; ⟨a, ha.1, ha.2, e⟩⟩
+
+/-- **C08, NWAffine, the part that holds** (`_partial`: the maximum is over the global
+    alignments without adjacent opposite gaps, not over all of them — finding K1).
+    For all matrices, gap-open values and non-empty sequences the model of `NWAffine` returns
+    pairs whose total is an upper bound for every such alignment and is attained by one. -/
+theorem nwAffine_opt_partial (S : Matrix) (gapOpen : Int) (r q : List Nat) (hr : r ≠ []) (hq : q ≠ []) :
+    ∃ ps, nwAlign S gapOpen r q = .ok ps ∧
+      (∀ a, IsGlobal a r q → NoAdj a → scoreAff S gapOpen a ≤ total ps) ∧
+      (∃ a, IsGlobal a r q ∧ NoAdj a ∧ scoreAff S gapOpen a = total ps) := by
+  obtain ⟨ps, x, hps, hx, htot⟩ := nwAlign_total S gapOpen r q hr hq
+  have h := globalOpt_isOpt false S gapOpen r q
+  refine ⟨ps, hps, ?_, ?_⟩
+  · intro a hg hn
+    obtain ⟨y, hy, hle⟩ := h.1 a ⟨hg, Or.inr hn⟩
+    rw [hx] at hy
+    cases hy
+    omega
+  · obtain ⟨a, ⟨hg, hn⟩, e⟩ := h.2 x hx
+    rcases hn with hn | hn
+    · cases hn
+    · exact ⟨a, hg, hn, by omega⟩
+
+/-- non-vacuity: the K1 witness itself -/
+example : nwAlign (sc [[0, 0, 0], [-2, 1, -10], [-2, -10, 1]]) (-2) [1] [2] = .ok [⟨0, 1, 0, 1, -10⟩] := by
+  decide +kernel
 
 /-- the K1 witness: `S[a][c] = −10`, gap scores `−2` (gap in the query) and `0` (gap in the
     reference), gap-open `−2`; letters `a = 1`, `c = 2` of `-acgt` -/
@@ -14,12 +66,57 @@ def k1M : List (List Int) :=
 
 /-- Refutation of the full-strength statement of C08 for `NWAffine` ("the total equals the
     maximum over all global alignments under the affine gap model"): for `r = a`, `q = c`
-    the aligner reports −10 while the global alignment `a-` / `-c` scores −4. -/
+    the aligner reports −10 while the global alignment `a-` / `-c` scores −6. -/
 theorem nwAffine_not_opt :
     ∃ (M : List (List Int)) (gapOpen : Int) (r q : List Nat) (ps : List Pair) (a : Aln),
       gapOpen ≤ 0 ∧ (∀ x, x < 5 → sc M x 0 ≤ 0 ∧ sc M 0 x ≤ 0) ∧
       nwAlign (sc M) gapOpen r q = .ok ps ∧ IsGlobal a r q ∧ total ps < scoreAff (sc M) gapOpen a :=
   ⟨k1M, -2, [1], [2], [⟨0, 1, 0, 1, -10⟩], [.u 1, .l 2], by decide, by decide, by decide +kernel,
     ⟨by decide, by decide⟩, by decide⟩
+
+/-- **The classical side condition.**  If a letter pair never scores less than its two
+    letters against gaps and opening a gap costs, every global alignment is matched or beaten
+    by one without adjacent opposite gaps, so the maximum over the restricted class is the
+    maximum over all global alignments.
+    (DESIGN.md states the condition as `S r q ≥ (open + S r 0) + (open + S 0 q)`; that is not
+    sufficient, see `design_side_condition_insufficient`.) -/
+theorem noAdj_suffices (S : Matrix) (gapOpen : Int) (ho : gapOpen ≤ 0)
+    (H : ∀ x y, S x 0 + S 0 y ≤ S x y) (r q : List Nat) (a : Aln) (h : IsGlobal a r q) :
+    ∃ a', IsGlobal a' r q ∧ NoAdj a' ∧ scoreAff S gapOpen a ≤ scoreAff S gapOpen a' :=
+  exists_noAdj_ge S gapOpen ho H r q a h
+
+/-- non-vacuity of the side condition: unit costs satisfy it -/
+example : ∀ x, x < 3 → ∀ y, y < 3 →
+    sc [[0, -1, -1], [-1, 1, -1], [-1, -1, 1]] x 0 + sc [[0, -1, -1], [-1, 1, -1], [-1, -1, 1]] 0 y
+      ≤ sc [[0, -1, -1], [-1, 1, -1], [-1, -1, 1]] x y := by decide
+
+/-- **C08 for NWAffine at full strength under the side condition**: the total equals the
+    maximum over *all* global alignments. -/
+theorem nwAffine_opt_of_side_condition (S : Matrix) (gapOpen : Int) (ho : gapOpen ≤ 0)
+    (H : ∀ x y, S x 0 + S 0 y ≤ S x y) (r q : List Nat) (hr : r ≠ []) (hq : q ≠ []) :
+    ∃ ps, nwAlign S gapOpen r q = .ok ps ∧
+      (∀ a, IsGlobal a r q → scoreAff S gapOpen a ≤ total ps) ∧
+      (∃ a, IsGlobal a r q ∧ scoreAff S gapOpen a = total ps) := by
+  obtain ⟨ps, hps, hub, a, hg, _, he⟩ := nwAffine_opt_partial S gapOpen r q hr hq
+  refine ⟨ps, hps, ?_, a, hg, he⟩
+  intro b hb
+  obtain ⟨b', hg', hn', hle⟩ := noAdj_suffices S gapOpen ho H r q b hb
+  have := hub b' hg' hn'
+  omega
+
+/-- The side condition as DESIGN.md words it, `S r q ≥ (open + S r 0) + (open + S 0 q)`, does
+    not make the restricted optimum the optimum: all letter pairs −10, gap letters −1,
+    gap-open −4, `r = aa`, `q = cc`: the condition holds (−10 ≥ −10), `NWAffine` returns −20,
+    the alignment `aa--` / `--cc` scores −12. -/
+theorem design_side_condition_insufficient :
+    ∃ (M : List (List Int)) (gapOpen : Int) (r q : List Nat) (ps : List Pair) (a : Aln),
+      gapOpen ≤ 0 ∧
+      (∀ x, x < 5 → ∀ y, y < 5 → 0 < x → 0 < y →
+        (gapOpen + sc M x 0) + (gapOpen + sc M 0 y) ≤ sc M x y) ∧
+      nwAlign (sc M) gapOpen r q = .ok ps ∧ IsGlobal a r q ∧ total ps < scoreAff (sc M) gapOpen a :=
+  ⟨[[0, -1, -1, -1, -1], [-1, -10, -10, -10, -10], [-1, -10, -10, -10, -10], [-1, -10, -10, -10, -10],
+     [-1, -10, -10, -10, -10]], -4, [1, 1], [2, 2],
+    [⟨0, 1, 0, 1, -10⟩, ⟨1, 1, 1, 2, -5⟩, ⟨1, 2, 2, 2, -5⟩], [.u 1, .u 1, .l 2, .l 2],
+    by decide, by decide, by decide +kernel, ⟨by decide, by decide⟩, by decide⟩
 
 end Biogo.Properties.C08_aff
